@@ -102,22 +102,6 @@ def handleLimit (args : List String) (obs : String) : String :=
   | _ => "bad-case\tFAIL:bad-case"
 
 
-/-- Requests a connection task serves when `k` are waiting and its permit is revoked by the handler of the `j`-th
-    (0: before the task starts; none: never): the loop of `Server.cstep`, the permit read at each `loopTop`. -/
-def servedUnder (k : Nat) (j : Option Nat) : Nat → ConnSt → Nat
-  | 0, c => c.responses
-  | f + 1, c =>
-    let rev := match j with | some j => decide (c.responses ≥ j) | none => false
-    match cstep rev c .loopTop with
-    | some c1 =>
-      if c1.st = .closed then c1.responses
-      else if c1.responses < k then
-        match crun rev c1 [.request, .respond] with
-        | some c2 => servedUnder k j f c2
-        | none => c1.responses
-      else c1.responses
-    | none => c.responses
-
 /-- c13p `<k> <j>` -/
 def handlePermit (args : List String) (obs : String) : String :=
   match args with
